@@ -46,7 +46,11 @@ ParseOpt(t) ==   \* [err, key, val]
     [] t.k = "mock_api" ->
          IF t.f = "eq" THEN [err |-> "", key |-> "mock_api", val |-> t.v]
          ELSE [err |-> "syntax", key |-> "", val |-> ""]                       \* expected `=`
-    [] t.k = "?Send"  -> [err |-> "", key |-> "future_send", val |-> "false"]
+    \* `?Send` / `?Send = true`: no Send bound (future_send = "false"); `?Send = false`: the default (since a "fix:" commit - the
+    \* `= value` form used to be a syntax error)
+    [] t.k = "?Send"  -> IF t.f = "bare" THEN [err |-> "", key |-> "future_send", val |-> "false"]
+                         ELSE IF t.v \in {"true", "false"} THEN [err |-> "", key |-> "future_send", val |-> IF t.v = "true" THEN "false" ELSE "true"]
+                         ELSE [err |-> "syntax", key |-> "", val |-> ""]
     [] t.k = "?Sized" -> [err |-> "unknown-option", key |-> "", val |-> ""]
     [] t.k = "delegate_by" ->
          IF t.f = "bare" THEN [err |-> "", key |-> "delegate", val |-> "self"]
